@@ -742,7 +742,8 @@ def LoopRel (sc : Scope) (env : Spec.Eval.Env) (jenv : JEnv) : Prop :=
     ∃ i last, Spec.Eval.findLoop env.loops v = some (i, last) ∧ FrameRel f v i last jenv
 
 /-- the environment relation: the variables (`VarRel`) and the loops (`LoopRel`) -/
-def EnvRel (sc : Scope) (env : Spec.Eval.Env) (jenv : JEnv) : Prop := VarRel sc env jenv ∧ LoopRel sc env jenv
+def EnvRel (ent : Spec.Eval.Binds) (sc : Scope) (env : Spec.Eval.Env) (jenv : JEnv) : Prop :=
+  VarRel sc env jenv ∧ LoopRel sc env jenv ∧ toJsKvs ent = some jenv.optData
 
 theorem localNum_of_find {jenv : JEnv} {x : Bytes} {n : Int} (h : jenv.locals.find? (·.1 == x) = some (x, .num n)) :
     localNum jenv x = some n := by simp [localNum, h]
@@ -1370,7 +1371,8 @@ theorem loop_corr (sc : Scope) (env : Spec.Eval.Env) (jenv : JEnv) (hloop : Loop
     JavaScript text the generator writes for an expression of the fragment (`walkExpr_renders`) has
     the value `jv` (semantics of the common subset, Spec/JsSemRef), the Soy specification evaluates
     the expression to a value whose JSON image is `jv`. -/
-theorem gen_correct_refs_partial (sc : Scope) (env : Spec.Eval.Env) (jenv : JEnv) (hrel : EnvRel sc env jenv) :
+theorem gen_correct_refs_partial {ent : Spec.Eval.Binds} (sc : Scope) (env : Spec.Eval.Env) (jenv : JEnv)
+    (hrel : EnvRel ent sc env jenv) :
     ∀ (e : Expr) (j : JsExpr) (jv : JVal), toAst sc e = some j → eval jenv j = .val jv →
       ∃ v, Spec.Eval.eval env e = .val v ∧ toJsV v = some jv
   | .null _, j, jv, h, hj => by
@@ -1580,7 +1582,7 @@ theorem gen_correct_refs_partial (sc : Scope) (env : Spec.Eval.Env) (jenv : JEnv
     unfold toAst at h
     split at h
     · rename_i hn
-      exact loop_corr sc env jenv hrel.2 p name args j jv hn h hj
+      exact loop_corr sc env jenv hrel.2.1 p name args j jv hn h hj
     cases args with
     | nil => simp at h
     | cons a r =>
@@ -1633,8 +1635,8 @@ theorem gen_correct_refs_partial (sc : Scope) (env : Spec.Eval.Env) (jenv : JEnv
 /-- template parameters: before any `let` / loop, with `opt_data` the JSON image of the data the
     template was entered with -/
 theorem envRel_params (sc : Scope) (env : Spec.Eval.Env) (jenv : JEnv)
-    (hsc : ∀ k, sc.lookup k = none) (hdata : toJsKvs env.vars = some jenv.optData) : EnvRel sc env jenv := by
-  refine ⟨?_, ?_⟩
+    (hsc : ∀ k, sc.lookup k = none) (hdata : toJsKvs env.vars = some jenv.optData) : EnvRel env.vars sc env jenv := by
+  refine ⟨?_, ?_, hdata⟩
   · intro k _ _
     rw [hsc k]
     exact toJsKvs_find env.vars jenv.optData k hdata
